@@ -385,7 +385,7 @@ func execDoc(spec string) (res engine.Result) {
 			res.Fail(fmt.Sprintf("stage=write opt=%s kind=not-a-string", wo.name), ctx+": "+src+" => "+lisp.Show(wv))
 			continue
 		}
-		if wo.name == "default" || wo.name == "depth-0" {
+		if wo.name == "pretty-t" { // sorted members: the same text on every run
 			outcome = append(outcome, string(ws))
 		}
 		if !equalTrees(orig, b1.Any, false) {
